@@ -648,6 +648,17 @@ func generate(f *rep.Flags, bounds map[string]any, emit func(*Case)) {
 			}
 		}
 	}
+	// a device and a mount at the SAME path (the second mount key is the first device's path), on the
+	// base in which both exist: the two kinds are independent of each other
+	for _, o1 := range famCombos("device") {
+		for _, o2 := range famCombos("mount") {
+			if len(o1) == 0 || len(o2) == 0 {
+				continue
+			}
+			out(&Case{Family: "pair", Base: "dense", Ops: append(append([]merge.Op{}, o1...), o2...), Focus: []string{"device", "mount"}})
+			out(&Case{Family: "pair", Base: "dense", Ops: append(append([]merge.Op{}, o2...), o1...), Focus: []string{"mount", "device"}})
+		}
+	}
 	// everything at once
 	for _, b := range bases[:2] {
 		for variant := 0; variant < 4; variant++ {
